@@ -67,13 +67,21 @@ def gen_case0(rng, i):
     for _ in range(3):
         k = rng.randint(1, 4)
         cuts = sorted(rng.sample(range(0, Tn + 1), min(k + 1, Tn + 1)))
-        mode = rng.choice(['tiling', 'tiling', 'gaps', 'overlap', 'noend', 'single', 'offgrid', 'nested', 'nested_first', 'duplicate', 'unsorted'])
+        mode = rng.choice(['tiling', 'tiling', 'gaps', 'overlap', 'overlap_far', 'noend', 'single', 'offgrid', 'nested', 'nested_first', 'duplicate', 'unsorted'])
         st = [pts[c] for c in cuts[:-1]] or [pts[0]]
         en = [pts[c] for c in cuts[1:]] or [pts[Tn]]
         if mode == 'gaps' and len(st) > 1:
             en[0] = st[0] + (en[0] - st[0]) / 2
         if mode == 'overlap' and len(st) > 1:
             en[0] = en[0] + step
+        if mode == 'overlap_far' and Tn >= 3:
+            # a tiling, followed by an interval that overlaps an interval that is NOT its neighbour in the list
+            c1 = rng.randint(2, Tn - 1)
+            a = rng.randint(0, c1 - 2)
+            b = rng.randint(a + 1, c1 - 1)
+            st, en = [pts[0], pts[c1], pts[a]], [pts[c1], pts[Tn], pts[b]]
+            if rng.random() < 0.5:
+                st, en = [st[2], st[1], st[0]], [en[2], en[1], en[0]]
         if mode == 'offgrid':
             st = [t + step / 4 for t in st]
         if mode in ('nested', 'nested_first') and Tn >= 3:
@@ -164,6 +172,22 @@ def run(ctx):
             if (not ok) and w.get('freq') and w['kind'] in ('straddle_l',):
                 ctx.violation('impl-violation', {'spec': sp, 'window': w, 'observed': r.get('error'), 'expected': 'coarse restricted grid for a window starting before the horizon'},
                               trigger={'what': 'coarse window straddles the grid start'})
+            nd = r.get('nested')
+            if nd is not None and not w.get('freq'):
+                # restricting the restricted grid once more (an asset window inside an interval of the horizon): still the points of both
+                # windows, indexed in the ORIGINAL grid
+                w2 = sp['windows'][(sp['windows'].index(w) + 1) % len(sp['windows'])]
+                lo = max([M.inst(x['start'], tz) for x in (w, w2) if x.get('start')] + [tp[0]]) if tp else 0
+                hi = min([M.inst(x['end'], tz) for x in (w, w2) if x.get('end')] + [M.inst(g['end'], tz)])
+                want = [i for i, p_ in enumerate(tp) if lo <= p_ < hi]
+                ctx.cov['impl_oracle_evaluations'] += 1
+                if nd.get('status') != 'ok':
+                    if want:
+                        ctx.violation('impl-violation', {'spec': sp, 'windows': [w, w2], 'observed': nd.get('error'), 'expected': 'restricting a restricted grid works'},
+                                      trigger={'what': 'restricting twice fails'})
+                elif nd['I'] != want or nd['tp'] != [tp[i] for i in want]:
+                    ctx.violation('impl-violation', {'spec': sp, 'windows': [w, w2], 'observed': {'I': nd['I'], 'tp': nd['tp']}, 'expected': {'I': want, 'tp': [tp[i] for i in want]}},
+                                  trigger={'what': 'restricting twice: indices not those of the original grid'})
             exprs.append('(c19_window_case %s %s %s %s %s %s %s)' % (
                 rg, C.b(ok), C.lst([C.nat(i) for i in r.get('I', [])]), C.lst([C.z(p) for p in r.get('tp', [])]),
                 C.qvec(r.get('dt', [])), C.qvec(r.get('Dt', [])),
